@@ -20,6 +20,7 @@ func init() {
 		Category: "model_checking",
 		Rule: "streams synthesised block by block from a grammar: (A) one dynamic block for every (literal/length shape x distance shape x header encoding) of the catalogue with every symbol sequence of length <=k over the per-code alphabet, bare / padded past the assembly loop's entry conditions / after a 64 KiB+ prefix; (B) the same over the fixed code; " +
 			"(C) stored blocks of length 0,1,2,65535 at all 8 bit offsets; (D) every ordered pair of code shapes in consecutive blocks; (E) 2000 tiny blocks in a row; (F) streams made by compress/flate (levels 0,1,6,9,-2) and by fastgo (accelerated levels) over the data pieces; " +
+			"(H) window-fill straddle: a stored prefix ending j bytes (16 values 0..259) before the decoder's 64 KiB output window fills (65536 and 98304), then 0-2 literals, a match of length {3,4,17,18,257,258} and distance {1,2,3,15,16,17,31,32,33,100,257,258,259,4096,32768} in a non-final fixed or short-code dynamic block (packed literal+length table entries), so that literals, packed entries and copies straddle the fill point; " +
 			"(G) single-match sweep: every length 3..258 (both encodings of 258) x first and last distance of every distance symbol; each x 6 Read-size policies; only streams compress/flate accepts are in scope; non-trivial = the stream has at least one symbol besides end-of-block",
 		Assumptions: []string{"compress/flate defines the expected result", "reference inflater agrees with compress/flate on every stream (checked on every execution; disagreement is a harness error)"},
 		Quick:       TierSpec{MaxDev: -1, Shards: 4, ShardDepth: 3, BudgetS: 150},
@@ -37,6 +38,7 @@ type streamGen struct {
 	prefix  []byte // 64 KiB+ stored prefix blocks
 	prefOut []byte
 	encoded []namedStream
+	wfData  []byte
 }
 
 type namedStream struct {
@@ -130,7 +132,7 @@ func padSyms(alpha []synth.Sym) []synth.Sym {
 
 // choose builds one valid stream from engine choices. ok=false means the combination is not expressible.
 func (g *streamGen) choose(x *mc.Exec, k int) (stream []byte, name string, ok bool) {
-	fam := x.Choose(7, "family")
+	fam := x.Choose(8, "family")
 	switch fam {
 	case 0, 1: // A: dynamic block; B: fixed block
 		var blk synth.Block
@@ -265,6 +267,9 @@ func (g *streamGen) choose(x *mc.Exec, k int) (stream []byte, name string, ok bo
 		es := g.encoderStreams()
 		e := es[x.Choose(len(es), "encoded")]
 		return e.stream, e.name, true
+	case 7: // H: symbols straddling the points where the 64 KiB internal output window fills (65536, then every 32768)
+		ws, name := g.windowFill(x)
+		return ws, name, true
 	case 6: // G: single-match sweep over the fixed code and a dynamic code with all symbols
 		dyn := x.Choose(2, "code")
 		ln := 3 + x.Choose(257, "length") // 3..258, 259 = 258 alt encoding
@@ -327,7 +332,7 @@ func c02Harness(cfg *Cfg) func(x *mc.Exec) {
 			return
 		}
 		npol := len(readPolicies)
-		if !cfg.Thorough && (strings.HasPrefix(name, "match(") || strings.Contains(name, " tail2 ")) {
+		if !cfg.Thorough && (strings.HasPrefix(name, "match(") || strings.Contains(name, " tail2 ") || strings.HasPrefix(name, "window-fill")) {
 			npol = 2 // quick tier: the expensive families get the all-at-once and 1-byte policies only
 		}
 		pol := readPolicies[x.Choose(npol, "read-policy")]
@@ -369,3 +374,104 @@ func c02Harness(cfg *Cfg) func(x *mc.Exec) {
 		x.Outcome(fmt.Sprintf("%s -> %d bytes", name, len(want)))
 	}
 }
+
+var wfJ = []int{0, 1, 2, 3, 7, 8, 9, 15, 16, 17, 31, 100, 200, 257, 258, 259}
+var wfLen = []int{3, 4, 17, 18, 257, 258}
+var wfDist = []int{1, 2, 3, 15, 16, 17, 31, 32, 33, 100, 257, 258, 259, 4096, 32768}
+
+// windowFill builds: stored prefix of F-j bytes, then a NON-final block (fixed, or dynamic with short codes so that
+// the literal-pair/triple and literal+length table entries exist) holding nl literals, one match and more literals,
+// then a final empty stored block. F is a point at which the decoder's 64 KiB output window is full.
+func (g *streamGen) windowFill(x *mc.Exec) ([]byte, string) {
+	nF, js := 2, wfJ
+	if !g.cfg.Thorough {
+		nF, js = 1, []int{0, 1, 2, 15, 16, 17, 257, 258} // quick tier: the first fill point, 8 offsets
+	}
+	F := []int{65536, 98304}[x.Choose(nF, "fill-point")]
+	j := js[x.Choose(len(js), "bytes-before-fill")]
+	nl := x.Choose(3, "literals-before-match")
+	L := wfLen[x.Choose(len(wfLen), "match-len")]
+	d := wfDist[x.Choose(len(wfDist), "match-dist")]
+	kind := x.Choose(2, "block-kind")
+	return g.windowFillStream(F, j, nl, L, d, kind)
+}
+
+func (g *streamGen) windowFillStream(F, j, nl, L, d, kind int) ([]byte, string) {
+	s, n, _ := g.windowFillStreamAt(F, j, nl, L, d, kind)
+	return s, n
+}
+
+// windowFillStreamAt also returns the compressed byte offset at which the interesting block starts.
+func (g *streamGen) windowFillStreamAt(F, j, nl, L, d, kind int) ([]byte, string, int) {
+	// the stored prefix ends j bytes before the fill point; the nl literals and the match follow, so that for j = 0
+	// a packed literal+length entry is looked up exactly when the window is full
+	P := F - j
+	if P < d {
+		P = d
+	}
+	pre := g.wfPrefix(P)
+	w := &synth.BitWriter{}
+	for h := pre; len(h) > 0; {
+		n := len(h)
+		if n > 65535 {
+			n = 65535
+		}
+		synth.BuildTo(w, synth.Block{Type: 0, Stored: h[:n]})
+		h = h[n:]
+	}
+	blk := synth.Block{Type: 1}
+	if kind == 1 {
+		// 'a','b' and the two length symbols get 2-3 bit codes: pairs and triples fit the 12-bit lookup
+		syms := []int{'a', 'b', 256, 257, 285, 258, 264, 265, 270, 284}
+		lens := []uint8{2, 2, 4, 3, 3, 4, 5, 5, 5, 5}
+		blk = synth.Block{Type: 2, LitLens: trimLitLens(synth.Assign(286, syms, lens)), DistLens: g.dists[4].Lens, Enc: synth.EncRepeat}
+		if NewCodeLeft(blk.LitLens) != 0 {
+			panic(mc.HarnessError{Msg: "windowFill: literal code not complete"})
+		}
+	}
+	var syms []synth.Sym
+	for i := 0; i < nl; i++ {
+		syms = append(syms, synth.Sym{Kind: synth.SymLit, Lit: 'a' + i%2})
+	}
+	m := synth.Sym{Kind: synth.SymMatch, Len: L, Dist: d}
+	if kind == 1 {
+		// only lengths with a code in the short dynamic code: 3, 4, 10, 11-12, 17-18 via 270? keep to those expressible
+		ls, _, _ := synth.LenSym(L, false)
+		if !synth.NewCode(blk.LitLens).Has(ls) {
+			m.Len = 258
+			if L < 10 {
+				m.Len = 3
+			}
+		}
+	}
+	syms = append(syms, m)
+	for i := 0; i < 40; i++ {
+		syms = append(syms, synth.Sym{Kind: synth.SymLit, Lit: 'a' + i%2})
+	}
+	syms = append(syms, synth.Sym{Kind: synth.SymMatch, Len: 258, Dist: 100})
+	for i := 0; i < 40; i++ {
+		syms = append(syms, synth.Sym{Kind: synth.SymLit, Lit: 'b' - i%2})
+	}
+	blk.Syms = syms
+	at := (w.Len() + 7) / 8
+	synth.BuildTo(w, blk, synth.Block{Final: true, Type: 0, Stored: []byte("end")})
+	return w.Bytes(), fmt.Sprintf("window-fill F=%d j=%d lits=%d match(%d,%d) kind=%d", F, j, nl, m.Len, d, kind), at
+}
+
+func (g *streamGen) wfPrefix(n int) []byte {
+	if len(g.wfData) < n {
+		g.wfData = pieces.Text(100000, g.cfg.Seed+77)
+	}
+	return g.wfData[:n]
+}
+
+func trimLitLens(l []uint8) []uint8 {
+	n := len(l)
+	for n > 257 && l[n-1] == 0 {
+		n--
+	}
+	return l[:n]
+}
+
+// NewCodeLeft reports the Kraft slack of a length vector (0 = complete).
+func NewCodeLeft(l []uint8) int { return synth.NewCode(l).Left }
